@@ -506,13 +506,7 @@ func (p *Parser) parseLambdaMulti(left ast.Node, more ...ast.Node) ast.Node {
 	}
 	t, ok := okParamList(lambda.Parameters)
 	if !ok {
-		what := "an invalid expression"
-		if t != nil {
-			what = t.Literal()
-		}
-		errLine, lineNum := p.ErrorLine(false)
-		p.errors = append(p.errors, fmt.Sprintf("%d: lambda parameters must be identifiers, not %s\n%s",
-			lineNum, what, errLine))
+		p.paramError("lambda", t)
 		return nil
 	}
 	if t != nil {
@@ -672,18 +666,6 @@ func (p *Parser) parseBuiltin() ast.Node {
 	return bi
 }
 
-// A parameter can be any token (which prints and reads back as itself) but not an invalid character.
-func (p *Parser) parameter() *ast.Identifier {
-	if p.curToken.Type() == token.ILLEGAL {
-		errLine, lineNum := p.ErrorLine(true)
-		p.errors = append(p.errors, fmt.Sprintf("%d: invalid character `%s` in parameter list:\n%s",
-			lineNum, p.curToken.Literal(), errLine))
-	}
-	ident := &ast.Identifier{}
-	ident.Token = p.curToken
-	return ident
-}
-
 func (p *Parser) parseFunctionParameters() ([]ast.Node, bool) {
 	identifiers := []ast.Node{}
 	if p.peekTokenIs(token.RPAREN) {
@@ -700,7 +682,35 @@ func (p *Parser) parseFunctionParameters() ([]ast.Node, bool) {
 	if !p.expectPeek(token.RPAREN) {
 		return nil, false
 	}
-	return identifiers, (p.prevToken.Type() == token.DOTDOT)
+	// Same rule as for lambdas: identifiers, the last one can be `..`. Any other token used to be taken
+	// as a parameter name: func("a b"){} printed as func(a b){} which doesn't parse back.
+	t, ok := okParamList(identifiers)
+	if !ok {
+		p.paramError("function", t)
+		return nil, false
+	}
+	return identifiers, (t != nil)
+}
+
+func (p *Parser) parameter() *ast.Identifier {
+	ident := &ast.Identifier{}
+	ident.Token = p.curToken
+	return ident
+}
+
+// paramError records that t (nil: an expression that failed to parse) can't be a parameter of a function/macro or lambda.
+func (p *Parser) paramError(kind string, t *token.Token) {
+	errLine, lineNum := p.ErrorLine(false)
+	var msg string
+	switch {
+	case t == nil:
+		msg = kind + " parameters must be identifiers, not an invalid expression"
+	case t.Type() == token.ILLEGAL:
+		msg = fmt.Sprintf("invalid character `%s` in %s parameter list", t.Literal(), kind)
+	default:
+		msg = fmt.Sprintf("%s parameters must be identifiers, not %s", kind, t.Literal())
+	}
+	p.errors = append(p.errors, fmt.Sprintf("%d: %s\n%s", lineNum, msg, errLine))
 }
 
 func (p *Parser) parseCallExpression(function ast.Node) ast.Node {
